@@ -180,9 +180,9 @@ impl<P: PType> Sut for PrefixSet<P> {
             K::CloneSelf => {
                 let before = self.verif_dump();
                 let c = self.clone();
-                let a = c.verif_dump();
+                let a = self.verif_dump();
                 let same = before.arena_len == a.arena_len && before.free == a.free && before.count == a.count && before.slots == a.slots;
-                expect!(out, same, "C19", "PrefixSet::clone", "clone-differs", "dump of the clone differs from the original");
+                expect!(out, same, "C19", "PrefixSet::clone", "clone-changes-original", "clone() changed the original set");
                 *self = c;
             }
             K::Recollect | K::RecollectRev => {
